@@ -31,6 +31,14 @@ CLAIMS = {
              'same way but BOUNDED (retry <= 2/3, depth 2, <= 2 resumptions) and counted separately, never as proved.',
         note='Obligations are ground after path enumeration (decided by evaluating the ghost trace of effect stubs; no solver). Trusted: effect stubs model '
              'commit()/rollback()/cache.release()/predicates/body as return-or-raise with no other access to session-local state; stub flask/bottle modules.'),
+    'C19': dict(
+        text='Proof by exhaustive fault enumeration for ONE session: the real SQLiteProvider / DBAPIProvider / PGProvider, Pool / SQLitePool / PGPool, '
+             'SessionCache.connect / reconnect / prepare_connection_for_query_execution / commit / rollback / release / close, core.commit / rollback and '
+             '_commit_or_rollback are executed with every DB-API call (connect, cursor, execute, commit, rollback, close, autocommit switch), on_connect and '
+             'flush allowed to fail at every point; on every path the SQLite transaction lock is held iff the cache is in a transaction, never double-acquired '
+             'or double-released, free at session end, and every connection handed out by the pool is returned or closed exactly once.',
+        note='Thread schedules (two or three sessions) are NOT covered: outside this technique. Ground obligations (decided by evaluation after path enumeration). '
+             'Trusted: GhostLock as single-thread model of threading.Lock; DB-API stubs return-or-raise; psycopg2 stub module only supplies exception classes.'),
 }
 
 _NOT_BUILT = 'within reach of the technique per DESIGN.md, check not built yet'
